@@ -3306,8 +3306,15 @@ impl Collection {
                         .btree_index_value(index, &doc)
                         .unwrap_or(Cow::Owned(FieldValue::Null));
 
-                    if let Err(err) = index.update(id, &old_value, &new_value, now_ms) {
-                        // A refused update of an array or map key set may
+                    // Claim the new value(s) only. The old ones stay owned by
+                    // this document until its write is acknowledged (they are
+                    // released below): given up here, another writer could
+                    // become the owner of a unique value while a later index
+                    // may still refuse this call, or while the document write
+                    // is in flight and may fail — and the rollback could not
+                    // take the value back.
+                    if let Err(err) = index.insert(id, &new_value, now_ms) {
+                        // A refused claim of an array or map key set may
                         // already have applied some of its new values; only
                         // the rollback takes them back.
                         btree_refused = Some((index, (old_value, new_value)));
@@ -3349,6 +3356,13 @@ impl Collection {
 
             Ok(())
         })();
+
+        // What the release after the document write needs (the rollback
+        // closure below takes the map itself).
+        let btree_claimed: Vec<(&BTree, (Cow<FieldValue>, Cow<FieldValue>))> = btree_updated
+            .iter()
+            .map(|(index, values)| (*index, values.clone()))
+            .collect();
 
         // Restores the pre-update index state. Returns `false` when any
         // restore failed: the in-memory indexes then no longer describe the
@@ -3431,6 +3445,21 @@ impl Collection {
             // reopen reconcile the divergence; this handle must not continue.
             self.poison("Collection::update");
             return Err(err);
+        }
+
+        // The document write is acknowledged: only now are the old values
+        // given up (`update` re-asserts the claimed new ones, which is a
+        // no-op, and removes what the old value had and the new one has not).
+        for (index, (old_value, new_value)) in btree_claimed {
+            if let Err(err) = index.update(id, &old_value, &new_value, now_ms) {
+                log::error!(
+                    action = "Collection::update",
+                    collection = self.name,
+                    doc_id = id,
+                    index = index.name();
+                    "Failed to release the old BTree value after the document write: {err:?}",
+                );
+            }
         }
 
         self.update_metadata(|meta| {
@@ -3542,8 +3571,6 @@ impl Collection {
         }
 
         #[allow(clippy::mutable_key_type)]
-        let mut btree_removed: FxHashMap<&BTree, Cow<FieldValue>> = FxHashMap::default();
-        #[allow(clippy::mutable_key_type)]
         let mut bm25_removed: FxHashMap<&BM25, (u64, Cow<str>)> = FxHashMap::default();
         #[allow(clippy::mutable_key_type)]
         let mut hnsw_removed: FxHashMap<&Hnsw, (u64, Cow<Vector>)> = FxHashMap::default();
@@ -3551,16 +3578,14 @@ impl Collection {
         // Phase 1: remove index entries while we still hold the original
         // contents. Record actual removals so a storage delete failure can
         // restore the in-memory indexes before returning.
+        //
+        // The B-tree values are not given up here: they stay owned by this
+        // document until its DELETE is acknowledged (phase 2b). Released
+        // first, another writer could become the owner of a unique value
+        // while the DELETE is in flight and may fail — the restore below
+        // could not take the value back, and the surviving document would
+        // share it.
         if let Some(doc) = &doc {
-            for index in &self.btree_indexes {
-                if let Some(fv) = self.index_hooks.btree_index_value(index, doc)
-                    && fv.as_ref() != &FieldValue::Null
-                    && index.remove(id, &fv, now_ms)
-                {
-                    btree_removed.insert(index, fv);
-                }
-            }
-
             for index in &self.bm25_indexes {
                 if let Some(text) = self.index_hooks.bm25_index_value(index, doc)
                     && index.remove(id, &text, now_ms)
@@ -3579,9 +3604,6 @@ impl Collection {
         }
 
         let rollback_indexes = || {
-            for (index, value) in btree_removed {
-                let _ = index.insert(id, &value, now_ms);
-            }
             for (index, (id, text)) in bm25_removed {
                 let _ = index.insert(id, &text, now_ms);
             }
@@ -3608,6 +3630,18 @@ impl Collection {
             // a reopen complete the removal; this handle must not continue.
             self.poison("Collection::remove");
             return Err(err);
+        }
+
+        // Phase 2b: the DELETE is acknowledged; the document's B-tree values
+        // are free for other writers from here on.
+        if let Some(doc) = &doc {
+            for index in &self.btree_indexes {
+                if let Some(fv) = self.index_hooks.btree_index_value(index, doc)
+                    && fv.as_ref() != &FieldValue::Null
+                {
+                    index.remove(id, &fv, now_ms);
+                }
+            }
         }
 
         // Phase 3: finalise by updating the in-memory bitmap. Locks are taken
